@@ -132,6 +132,11 @@ class _IdGen:
 
     def reset(self) -> None:
         self.n = 0
+        self.serial = 0
+
+    def next_serial(self) -> int:
+        self.serial = getattr(self, "serial", 0) + 1
+        return self.serial
 
     def uuid4(self) -> _uuid.UUID:
         self.n += 1
@@ -207,7 +212,24 @@ def install(threading_shim: object | None = None, sqlite_shim: object | None = N
                 _patched.append((mod, attr, val))
                 setattr(mod, attr, new)
     _uuid.uuid4 = IDS.uuid4
+    if not _installed:
+        _install_speed_seams()
     _installed = True
+
+
+def _install_speed_seams() -> None:
+    """Environment scans that cost ~35 ms per app object and carry no behaviour of interest:
+    plugin entry-point discovery (done once here) and the search of sys.modules for the
+    variable that holds the app (only used to re-import the app in another process)."""
+    import pynenc.app as appmod
+    import pynenc.plugin_loader as pl
+    import pynenc.util.import_app as ia
+
+    pl.load_all_plugins()
+    _patched.append((appmod, "load_all_plugins", appmod.load_all_plugins))
+    appmod.load_all_plugins = lambda: None
+    _patched.append((ia, "extract_module_info", ia.extract_module_info))
+    ia.extract_module_info = lambda app: (None, None, None)
 
 
 def uninstall() -> None:
